@@ -197,6 +197,11 @@ impl World {
             Some(p) => format!("127.0.0.1:{p}"),
             None => "127.0.0.1:0".into(),
         };
+        if let Some(n) = a.get("fport") {
+            // restart at the fabric address of node <n> (usually itself)
+            let old = self.nodes.get(&n.parse::<usize>().unwrap()).map(|x| x.port);
+            *fabric::NEXT_PORT.lock().unwrap() = old;
+        }
         let mut b = Network::bind(bind).server_name(name).private_key(key).config(cfg);
         if let Some(alt) = a.get("alt") {
             b = b.alternate_server_name(*alt);
@@ -384,7 +389,14 @@ async fn run_scenario(line: &[&str]) -> String {
         dup_permille: a.get("dup").and_then(|v| v.parse().ok()).unwrap_or(base.dup_permille),
     };
     fab.set_cfg(link(&a, LinkCfg::default()));
-    fabric::install(&fab);
+    let real = a.get("real").is_some();
+    if !real {
+        fabric::install(&fab);
+    }
+    anemo::verif::set_jitter_override(Some(Duration::from_millis(
+        a.get("tickjitter").and_then(|v| v.parse().ok()).unwrap_or(0),
+    )));
+    anemo::verif::trace_enable(true);
     let mut w = World {
         fabric: fab.clone(),
         nodes: HashMap::new(),
@@ -526,6 +538,24 @@ async fn run_scenario(line: &[&str]) -> String {
                 format!("closed={} upgrade={up}", closed.map(|c| c.to_string()).unwrap_or("dropped".into()))
             }
             "now" => format!("{}", w.start.elapsed().as_micros()),
+            "trace" => {
+                // trace lines since the last call, peer ids rewritten to node indices, ports kept
+                let ids = w.ids.lock().unwrap().clone();
+                let mut names: Vec<(String, String)> = ids.iter().map(|(p, i)| (format!("{p}"), format!("n{i}"))).collect();
+                names.sort();
+                let want = t.get(1).copied().unwrap_or("");
+                let lines: Vec<String> = anemo::verif::trace_take()
+                    .into_iter()
+                    .filter(|l| want.is_empty() || l.split_whitespace().nth(1) == Some(want))
+                    .map(|mut l| {
+                        for (hex, n) in &names {
+                            l = l.replace(hex, n);
+                        }
+                        l.replace(' ', ",")
+                    })
+                    .collect();
+                format!("[{}]", lines.join("|"))
+            }
             "idlt" => {
                 let (i, j): (usize, usize) = (t[1].parse().unwrap(), t[2].parse().unwrap());
                 format!("{}", (w.nodes[&i].peer_id < w.nodes[&j].peer_id) as u8)
@@ -543,6 +573,8 @@ async fn run_scenario(line: &[&str]) -> String {
         }
     }
     anemo::verif::set_socket_factory(None);
+    anemo::verif::trace_enable(false);
+    anemo::verif::set_jitter_override(None);
     out.join(" ; ")
 }
 
@@ -550,9 +582,11 @@ pub fn run() {
     for_each_case(|t| {
         catch(|| {
             let before = PANICS.load(Ordering::SeqCst);
+            // `real=1` in the scenario head: real UDP sockets and the real clock
+            let real = t.iter().take_while(|x| **x != ";").any(|x| *x == "real=1");
             let rt = tokio::runtime::Builder::new_current_thread()
                 .enable_all()
-                .start_paused(true)
+                .start_paused(!real)
                 .build()
                 .unwrap();
             let wall = std::time::Instant::now();
